@@ -2,39 +2,81 @@ package schedrig
 
 import (
 	"bytes"
-	"context"
-	"runtime/pprof"
+	"runtime"
+	"strconv"
 	"strings"
 )
 
-// WithLabel runs fn with the pprof label key=value; goroutines started inside
-// inherit it, which lets FindGoroutines attribute parked goroutines to one
-// scheduler / one call when several run in the same process.
-func WithLabel(key, value string, fn func()) {
-	pprof.Do(context.Background(), pprof.Labels(key, value), func(context.Context) { fn() })
+// GID returns the id of the calling goroutine (parsed from its own traceback
+// header; used only to find the goroutine again in a later dump).
+func GID() int64 {
+	var buf [64]byte
+	n := runtime.Stack(buf[:], false)
+	// "goroutine 123 [running]:"
+	f := bytes.Fields(buf[:n])
+	if len(f) < 2 {
+		return -1
+	}
+	id, err := strconv.ParseInt(string(f[1]), 10, 64)
+	if err != nil {
+		return -1
+	}
+	return id
 }
 
-// FindGoroutines returns the stack blocks of the goroutine profile which carry
-// the label key=value and contain every one of the substrings in all.
-func FindGoroutines(key, value string, all ...string) []string {
-	var buf bytes.Buffer
-	_ = pprof.Lookup("goroutine").WriteTo(&buf, 1)
-	want := `"` + key + `":"` + value + `"`
-	var out []string
-	for _, block := range strings.Split(buf.String(), "\n\n") {
-		if !strings.Contains(block, want) {
+// Goroutine is one entry of a full goroutine dump.
+type Goroutine struct {
+	ID    int64
+	State string // e.g. "chan receive", "chan send", "runnable", "select"
+	Stack string // the whole block including the header
+}
+
+// In reports whether the stack contains a frame whose function name contains fn.
+func (g Goroutine) In(fn string) bool { return strings.Contains(g.Stack, fn) }
+
+// Dump returns all goroutines of the process keyed by id. The state is the
+// scheduler wait reason: a goroutine in "chan receive" / "chan send" is parked
+// on that channel operation (a goroutine that has been readied is "runnable").
+func Dump() map[int64]Goroutine {
+	size := 1 << 20
+	var buf []byte
+	for {
+		buf = make([]byte, size)
+		n := runtime.Stack(buf, true)
+		if n < size {
+			buf = buf[:n]
+			break
+		}
+		size *= 2
+	}
+	out := map[int64]Goroutine{}
+	for _, block := range strings.Split(string(buf), "\n\n") {
+		block = strings.TrimSpace(block)
+		if !strings.HasPrefix(block, "goroutine ") {
 			continue
 		}
-		ok := true
-		for _, s := range all {
-			if !strings.Contains(block, s) {
-				ok = false
-				break
+		head := block
+		if i := strings.IndexByte(block, '\n'); i >= 0 {
+			head = block[:i]
+		}
+		// goroutine 12 [chan receive, 2 minutes]:
+		rest := strings.TrimPrefix(head, "goroutine ")
+		sp := strings.IndexByte(rest, ' ')
+		if sp < 0 {
+			continue
+		}
+		id, err := strconv.ParseInt(rest[:sp], 10, 64)
+		if err != nil {
+			continue
+		}
+		state := ""
+		if l, r := strings.IndexByte(rest, '['), strings.IndexByte(rest, ']'); l >= 0 && r > l {
+			state = rest[l+1 : r]
+			if c := strings.IndexByte(state, ','); c >= 0 {
+				state = state[:c]
 			}
 		}
-		if ok {
-			out = append(out, block)
-		}
+		out[id] = Goroutine{ID: id, State: state, Stack: block}
 	}
 	return out
 }
